@@ -30,6 +30,7 @@ def run(ctx):
         eigsbase.restart_bound(ctx, base)
         eigsbase.initial_state(ctx, base)
         eigsbase.rule_argument_flow(ctx, base)
+        eigsbase.ritz_data_of_current_call(ctx, base)
     eigsbase.counter_pairing(ctx)
     eigsbase.operator_callers(ctx)
     ctx.require('flags-fresh-at-use', 8)
